@@ -142,7 +142,72 @@ def check_lifecycle(d, rs):
             if pending[i] is not None:
                 raise Bad("module %d asked to restart at %d but the run ended without restarting it" % (i, pending[i]))
     check_drops(run, samples)
+    check_timers(run)
     return run, inc
+
+
+def task_sleeps(prog):
+    """the sleeps a task really takes, in order: sleep(0) returns at once, nothing runs after a panic"""
+    out = []
+    for a in prog:
+        if a[0] == "panic":
+            break
+        if a[0] == "sleep" and a[1] > 0:
+            out.append(a[1])
+    return out
+
+
+def timer_expectations(run):
+    """(module, task id, incarnation, poll time x, sleep d, log position of the poll, resumed at or None) for every sleep a
+    task is seen to enter during start-up or event dispatch: the poll that precedes it is in the log, the sleep is the
+    next one of the task's program"""
+    d = run.d
+    out = []
+    open_ = {}
+    pos = 0
+    for phase, t, mask, recs in run.units():
+        for r in recs:
+            pos += 1
+            if phase == "end" or r[0] not in (R_TASK, R_TIMER):
+                continue
+            m, tid, inc, x = r[1], r[2], r[4] // 2, r[3]
+            key = (m, tid, inc)
+            sl = task_sleeps(d["mods"][m]["tasks"][tid]) if tid < len(d["mods"][m]["tasks"]) else []
+            if r[0] == R_TASK:
+                j = 0
+            else:
+                if key not in open_:
+                    raise Bad("task %d of module %d (incarnation %d) resumes at %d without having been polled before" % (tid, m, inc, x))
+                j, e = open_.pop(key)
+                e[6] = x
+                j += 1
+            if j < len(sl):
+                e = [m, tid, inc, x, sl[j], pos, None]
+                out.append(e)
+                open_[key] = (j, e)
+    return out
+
+
+def check_timers(run):
+    """a task that sleeps d from time x resumes at exactly x + d ("its timers fire exactly at their deadline", also for the
+    incarnation a restart builds) -- unless its module is shut down, or a callback of the module panics, at or before x + d"""
+    stops = {}           # module -> [(log position, time)] of resets and callback panics
+    pos = 0
+    for phase, t, mask, recs in run.units():
+        now = t if phase == "loop" else (0 if phase == "start" else recs[0][3] if recs else 0)
+        for r in recs:
+            pos += 1
+            if r[0] == R_RESET or (r[0] == R_PANIC and r[2] == 0) or r[0] == R_QUIET:
+                stops.setdefault(r[1], []).append((pos, now))
+    for m, tid, inc, x, dl, p, resumed in timer_expectations(run):
+        due = x + dl
+        if resumed is not None:
+            if resumed != due:
+                raise Bad("task %d of module %d (incarnation %d) went to sleep for %d at %d but resumed at %d, not at %d"
+                          % (tid, m, inc, dl, x, resumed, due))
+        elif not run.fuel and not any(q > p and tt <= due for q, tt in stops.get(m, [])):
+            raise Bad("task %d of module %d (incarnation %d) went to sleep for %d at %d and its module stayed up, but it never resumed at %d"
+                      % (tid, m, inc, dl, x, due))
 
 
 def sources(run):
@@ -267,6 +332,15 @@ def mechanisms(script, out):
                 ms.add("in_transit_at_shutdown")
     if len(d["mods"]) >= 3:
         ms.add("three_or_more_modules")
+    # S < R < T < T2: shut down at S with a timer pending for T, restarted at R before T, first timer of the new incarnation T2 > T
+    exps = timer_expectations(run)
+    for mm, ts in reset_times.items():
+        for S in ts:
+            old = [x + dl for (m_, tid, inc_, x, dl, p, res) in exps if m_ == mm and res is None and x <= S < x + dl]
+            for R in [r for r in restart_times if r > S]:
+                new = [x + dl for (m_, tid, inc_, x, dl, p, res) in exps if m_ == mm and x == R]
+                if any(S < R < T for T in old) and new and any(min(new) > T for T in old if R < T):
+                    ms.add("restart_before_old_deadline")
     return ms
 
 
@@ -342,6 +416,38 @@ def fam_cycles(rng):
     return encode({"mods": mods, "inj": inj})
 
 
+def fam_stale_wakeup(rng):
+    """a ticker is shut down mid-period (S), restarted shortly after (R) and before the old deadline (T); the first deadline of
+    the new incarnation (T2) is later than T and nothing else happens to the module in between: S < R < T < T2"""
+    k = rng.choice([2, 2, 3])
+    P = rng.choice([6, 10, 10, 20])
+    nticks = rng.randint(1, 3)
+    S = P * rng.randint(0, 2) + rng.randint(1, P - 3)
+    r = rng.randint(1, max(1, (P * (S // P + 1) - S) - 1))        # R = S + r < T = next multiple of P
+    mods = [idle_mod(bud=8, stages=rng.choice([1, 1, 2])) for _ in range(k)]
+    tick = []
+    for i in range(nticks + 2):
+        tick += [("sleep", P), ("log", 7)]
+    if rng.random() < 0.5:
+        tick.append(("send", 0, 0, 0))
+    mods[0]["tasks"] = [tick] + ([[("sleep", P + rng.randint(1, 4)), ("log", 8)]] if rng.random() < 0.3 else [])
+    from_task = rng.random() < 0.3
+    if from_task:
+        mods[0]["tasks"].append([("sleep", S), ("restart", r)])
+        mods[0]["start"] = [[], []]
+        inj = []
+    else:
+        mods[0]["msg"] = [[("log", 1)], [("restart", r)]]
+        inj = [(0, 0, S, 1)]
+    if from_task:
+        # only the first incarnation shuts itself down: later ones run the ticker only
+        mods[0]["tasks"][-1] = [("sleep", S), ("restart", r), ("sleep", 10 ** 6)]
+        mods[0]["bud"] = 1 + (1 if tick[-1][0] == "send" else 0)
+    for _ in range(rng.randint(0, 2)):                 # traffic for the other modules only
+        inj.append((0, rng.randrange(1, k), rng.choice([S, S + r, S + 1, P, 2 * P]), 0))
+    return encode({"mods": mods, "inj": inj})
+
+
 def no_panic(script):
     d = decode(script)
     for m in d["mods"]:
@@ -355,7 +461,9 @@ def gen(rng, n):
     fams = [fam_handler_restart, fam_task_shutdown, fam_transit, fam_cycles]
     for i in range(n):
         j = i % 6
-        if j < 4:
+        if i % 12 == 11:
+            yield fam_stale_wakeup(rng)
+        elif j < 4:
             yield fams[j](rng)
         elif j == 4:
             yield no_panic(gen_random(rng))
